@@ -348,7 +348,7 @@ func ruleP13(r *Run) {
 
 func init() {
 	register("L11", "a struct field whose address is passed to a sync/atomic function anywhere in the library is never read or written plainly elsewhere (outside the composite literal that builds the struct and the functions that construct it before publication): `atomic.AddInt64(&c.counter, 1); id := c.counter` lets two concurrent callers take the same value - duplicate request ids, lost updates", 8, ruleL11)
-	register("G27", "where the services box an argument for a reflect call (in[X] = argumentValue(arg, ft, Y)), the parameter position Y the zero value is derived from is the slot X it is stored in (equal as linear expressions): a shifted position boxes an untyped nil as the zero value of the neighbouring parameter's type - the function silently receives \"\" or 0 where the caller passed nil", 4, ruleG27)
+	register("G27", "where the services box an argument for a reflect call (in[X] = argumentValue(arg, ft, Y)), the parameter position Y the zero value is derived from is the slot X it is stored in (equal as linear expressions): a shifted position boxes an untyped nil as the zero value of the neighbouring parameter's type - the function silently receives \"\" or 0 where the caller passed nil", 2, ruleG27)
 }
 
 func ruleL11(r *Run) {
